@@ -128,6 +128,10 @@ def twins_oracle(rng):
     # get_params exposes the key; set_params(get_params) is a no-op
     try:
         before = zoo.all_params(a)
+        # a call without arguments changes nothing and returns the estimator
+        d0 = set(vars(a))
+        if a.set_params() is not a or zoo.all_params(a) != before or set(vars(a)) != d0:
+            fails.append(rep(kind, "set_params-without-arguments-not-a-no-op"))
         gp = a.get_params()
         if key not in gp:
             fails.append(rep(kind, "get_params-missing-nested-key", {"key": key}))
